@@ -1842,6 +1842,8 @@ def evaluate__round(self: XPathFunction, context: ta.ContextType = None) \
         if precision < 0:
             if -precision > number.adjusted() + 1:
                 return type(arg)(0)  # type: ignore[call-overload, arg-type]
+            elif isinstance(arg, int):
+                return round(arg, precision)  # the result could exceed the range of a derived type
             return type(arg)(round(arg, precision))  # type: ignore[call-overload, arg-type]
         elif precision >= -number.as_tuple().exponent:  # type: ignore[operator]
             return arg  # no fractional digits to round
